@@ -23,7 +23,7 @@ SPEC = {
               model_deps=["theories/Model/Layout.vo", "theories/Model/LayoutMulti.vo", "theories/Model/LayoutRace.vo",
                           "theories/Model/Parse.vo",
                           "theories/Model/LayoutRef.vo"],
-              quick_n=330, thorough_n=6000, timeout=3000, rewrite=rewrite_os_for_c10,
+              quick_n=280, thorough_n=6000, timeout=3000, rewrite=rewrite_os_for_c10,
               rule="cases: real place on (hdrLen, limit, namelen) incl. limits around page ends, unaligned, near 2^32 (55%); "
                    "real hash (10%); real mappedHeader (5%); operation sequences through the real mappedFile API "
                    "(openMapped, newCounter, Add on the returned pointer, extend, close/reopen incl. foreign metadata) or the "
@@ -43,7 +43,11 @@ SPEC = {
                    "create the SAME new name whose record needs a new page, so that one parks inside extend while the "
                    "other links the name, then allocate 0-3 further records of different sizes. Limit and size are read "
                    "from disk after EVERY scheduler step; the run is replayed on Model/LayoutRace (and on the coarser "
-                   "Model/LayoutMulti for (a)). "
+                   "Model/LayoutMulti for (a)). (c) the same scenarios with ONE failing file-system call: for every plan "
+                   "with at most one preemption the call with which the preempted writer resumes and its next two calls "
+                   "(the other writer has worked on the file in between, e.g. allocated in the page the first one has just "
+                   "added), plus arbitrary positions. Independent-encoder files also with headers longer than the "
+                   "library's minimum (up to one page), non-zero bytes after the metadata's NUL and metadata over 512 bytes. "
                    "distinct = distinct case lines; every case compares implementation observables "
                    "with the model and evaluates the layout oracle, none is trivial"),
     ],
@@ -71,7 +75,11 @@ SPEC = {
                   "the limit and on bucket heads, stale heads, dead records) Props/C10.v cites the C04 theorems about "
                   "Model/FileConc (one record per name, limit / size / values never decrease, every schedule); the "
                   "file-system-call-granularity model Model/LayoutRace.v that the race cases replay is executable only and "
-                  "tied to the code by the suite, it has no theorem of its own. Faults are errno failures "
+                  "tied to the code by the suite, it has no theorem of its own; failing calls in the presence of another "
+                  "writer are covered by that model and the oracles (limit <= size at every step, well-formed, read back) "
+                  "only. The layout checker accepts headers longer than the writer's minimum (32-aligned, at most one "
+                  "page), ignores the bytes after the metadata's NUL and does not cap foreign metadata at 512 bytes: that is "
+                  "what Parse accepts and what the layout comment fixes. Faults are errno failures "
                   "without partial effect (no short writes) of the calls made by extend; a process killed between two "
                   "calls is the 'writer that stops anywhere' of the racing-creation schedules, not of the growth sequence. Sequences are restricted to files at least 64 KiB below the 4 GiB "
                   "cap of the format (hypothesis all_small / small): beyond it place and extend wrap in uint32 "
